@@ -116,6 +116,60 @@ def front_end_input(specs: List[Dict[str, Any]], asset: str = "B1") -> Tuple[Any
     return cfg, input_data, derived
 
 
+def schedule_from_config_file(lines: Sequence[Tuple[int, str]]) -> Any:
+    """The year -> method mapping the way rp2_main obtains it: an [accounting_methods] section with the given lines IN THIS ORDER is written to a
+    config file, read by the real Configuration, and `years_2_accounting_method_names` is returned (or the exception)."""
+    from rp2.configuration import MAX_DATE, MIN_DATE, Configuration
+
+    from rp2verif import sheets as S
+    from rp2verif.seams import compute as C
+    from rp2verif.seams import parser as P
+
+    methods = {int(y): m for y, m in lines}  # insertion order = order of the lines in the file
+    try:
+        cfg = Configuration(P.write_ini(S.ini_text(S.canonical_layout(), methods=methods)), C.country("us"), MIN_DATE, MAX_DATE, True)
+        return dict(cfg.years_2_accounting_method_names)
+    except Exception as exc:  # pylint: disable=broad-except
+        return exc
+
+
+def config_schedule_worker(task: Tuple[str, List[Tuple[Any, ...]]]) -> Stats:
+    """[(written schedule, order of its lines in the file)]: the mapping read back must be the written one, and a history whose every disposal
+    separates the four methods is run with the engine built from the mapping read back and judged against the WRITTEN schedule."""
+    import itertools
+    from importlib import import_module
+
+    from rp2verif import history as H
+    from rp2verif.seams import compute as C
+
+    modname, chunk = task
+    mod = import_module(modname)
+    st = Stats()
+    cfg = C.configuration("us", allow_negative_balances=True)
+    hist = mod.CONFIG_SCHEDULE_HISTORY
+    specs = H.materialize(hist)
+    for sch, perm in chunk:
+        lines = [sch[i] for i in perm]
+        label = "schedule read from the config file, lines in the order " + ", ".join(f"{y} = {m}" for y, m in lines)
+        got = schedule_from_config_file(lines)
+        st.inc("config_schedule_cases")
+        base = {"history": H.hist_str(hist), "hist": hist, "specs": specs, "schedule": [list(x) for x in sch], "deviation": label, "config_lines": [list(x) for x in lines]}
+        if isinstance(got, Exception):
+            st.inc("states")
+            st.violation(dict(base, signature=f"{mod.PROP} valid [accounting_methods] section rejected / {type(got).__name__}", what=f"{label} :: {type(got).__name__}: {got}"))
+            continue
+        if got != {int(y): m for y, m in sch}:
+            st.violation(dict(base, signature=f"{mod.PROP} schedule read from the config file differs from the one written",
+                              what=f"{label} :: RP2 uses {dict(sorted(got.items()))}, the file says {dict(sorted((int(y), m) for y, m in sch))}"))
+        try:
+            computed = C.compute_tax(cfg, C.engine(sorted(got.items())), C.build_input(cfg, specs))
+            out = C.Outcome(computed, None, None)
+        except Exception as exc:  # pylint: disable=broad-except
+            out = C.Outcome(None, exc, None)
+        mod.judge(st, hist, specs, [tuple(x) for x in sch], out, label)
+    return st
+
+
 def generic_worker(task: Tuple[Any, ...]) -> Stats:
     """task = (root, depth, schedules, steps, max_dev, row_order, module name). The property module provides FIRST,
     SYMBOLS, EXTRA (over-spent extra levels or None), judge(st, hist, specs, schedule, outcome, label) and optionally
@@ -203,6 +257,14 @@ def replay_compute(modname: str, path: str) -> int:
             else:
                 input_data = C.build_input(cfg, specs)
             eng = C.engine(schedule)
+            if payload.get("config_lines"):
+                got = schedule_from_config_file([tuple(x) for x in payload["config_lines"]])
+                if isinstance(got, Exception):
+                    raise got
+                if got != {int(y): m for y, m in schedule}:
+                    verdicts.append(["schedule read from the config file differs from the one written"])
+                    continue
+                eng = C.engine(sorted(got.items()))
             if "another asset computed first" in payload.get("deviation", "") and hasattr(mod, "PRELUDE"):
                 from rp2verif import history as H
 
